@@ -238,7 +238,7 @@ def _marker_whitespace(ctx: Ctx):
     the parser steps that decide how much of a line a marker consumes (tabs are expanded there)."""
     i = 0
     base = {"width": 88, "plaintext": False, "semantic": False, "cleanups": False, "smartquotes": False, "ellipses": False, "list_spacing": "preserve"}
-    for pre in ("", "a\n", "- ", "> ", "1. ", "[^n]: "):
+    for pre in ("", "a\n", "- ", "> ", "1. ", "[^n]: ", ">\t", "-\t", "1.\t", " \t", "> > ", "- > "):
         for m in MARKERS:
             for b in BLANKS:
                 for f in FOLLOW:
